@@ -25,7 +25,8 @@ LEVEL_TEXT = ("Coq theorems over ALL lists of inputs (any sizes, cells, data): m
               "(C16_cells_partial) and the full statement is refuted with a witness (C16_cells_refuted = open known finding); merged data sit at "
               "their input's offset under their own label (C16_merged_data, by an invariant over the merge_data double loop); no vertex is added "
               "(C16_vertices_complete), the code's offset rule never overshoots so every merged cell references an existing merged vertex even where "
-              "it departs from the specification (C16_code_cells_in_range), unit and append laws (C16_merge_single, C16_vertices_append). Tie: hand-written "
+              "it departs from the specification (C16_code_cells_in_range), unit and append laws (C16_merge_single, C16_vertices_append); no data set is invented, for ALL input lists incl. the renaming branch "
+              "(C16_no_invented_data, exact label under distinct labels: C16_no_invented_data_exact). Tie: hand-written "
               "model Merge.v vs. the real CurveMerger/SurfaceMerger/PointsMerger on generated inputs, evaluated by vm_compute; independent oracle. "
               "Drape models (Properties/C16D.v over Model/MergeDrape.v, a transcription of DrapeModelMerger.create_object/_ghost_point/merge_data on "
               "top of Merge.v's merge_data loop): for ALL lists of >= 2 canonical drape models with >= 2 prisms each the merge succeeds "
